@@ -25,16 +25,21 @@ def s(tokens):
     return "".join(CH.get(t, t) for t in tokens)
 
 
-def cfg_text(b, emit):
+INV_ALL = "RoundTrip FlatRoundTrip RoundTripIC FlatRoundTripIC ResolveRoundTrip Emit"
+INV_BIG = "RoundTrip FlatRoundTrip RoundTripIC FlatRoundTripIC Emit"
+
+
+def cfg_text(b, emit, inv=INV_ALL):
     return ("CONSTANTS\n  Alpha = {\"a\", \"A\", \"1\", \"_\", \".\", \"dq\", \"sp\", \"eacute\"}\n"
             + "  " + "  ".join(f"{k} = {v}" for k, v in b.items()) + "\n"
             + f"  EMIT = {'TRUE' if emit else 'FALSE'}\n"
-            + "SPECIFICATION Spec\nINVARIANTS RoundTrip FlatRoundTrip Emit\nCHECK_DEADLOCK FALSE\n")
+            + f"SPECIFICATION Spec\nINVARIANTS {inv}\nCHECK_DEADLOCK FALSE\n")
 
 
 # identifiers' max length per kind/arity (99 = none)
-EMIT_BOUNDS = dict(T1=3, T2=2, T3=1, C1=3, C2=2, C3=1, C4=1, S1=3, S2=1, XT=2, XC=2)
-BIG_BOUNDS_Q = dict(T1=3, T2=3, T3=1, C1=99, C2=99, C3=99, C4=99, S1=99, S2=99, XT=3, XC=0)
+EMIT_BOUNDS_T = dict(T1=3, T2=2, T3=1, C1=3, C2=2, C3=1, C4=1, S1=3, S2=1, XT=2, XC=2)
+EMIT_BOUNDS_Q = dict(T1=3, T2=2, T3=1, C1=3, C2=1, C3=1, C4=99, S1=2, S2=1, XT=2, XC=2)
+BIG_BOUNDS_Q = dict(T1=99, T2=3, T3=99, C1=99, C2=99, C3=99, C4=99, S1=99, S2=99, XT=0, XC=0)
 BIG_BOUNDS_T = dict(T1=4, T2=3, T3=2, C1=4, C2=3, C3=2, C4=1, S1=3, S2=2, XT=3, XC=3)
 
 
@@ -66,6 +71,7 @@ def run(ctx):
         return
     # 1. TLC: theorem over the emitted scope (cases printed) and over the larger check-only scope
     cfg = ctx.path("emit.cfg")
+    EMIT_BOUNDS = EMIT_BOUNDS_Q if ctx.quick else EMIT_BOUNDS_T
     open(cfg, "w").write(cfg_text(EMIT_BOUNDS, True))
     r = tlc_must_pass(ctx, "text/QuoteIdent", cfg=cfg, workers=4, timeout=900, tag="emit")
     cases = tlc_cases(r.out)
@@ -75,7 +81,7 @@ def run(ctx):
     mc = [{"bounds": EMIT_BOUNDS, "distinct_states": r.distinct, "generated": r.generated, "wall_s": round(r.wall, 1), "cases": len(cases)}]
     big = BIG_BOUNDS_Q if ctx.quick else BIG_BOUNDS_T
     cfg2 = ctx.path("big.cfg")
-    open(cfg2, "w").write(cfg_text(big, False))
+    open(cfg2, "w").write(cfg_text(big, False, "RoundTrip FlatRoundTrip Emit" if ctx.quick else INV_BIG))
     r2 = tlc_must_pass(ctx, "text/QuoteIdent", cfg=cfg2, workers=4 if ctx.quick else 8, timeout=3000, tag="big", coverage=False)
     states += r2.distinct
     transitions += r2.generated
@@ -85,7 +91,7 @@ def run(ctx):
     for c in cases:
         for k, v in c["shape"].items():
             shape_tot[k] = shape_tot.get(k, 0) + (1 if v else 0)
-    for k in ("bare", "escaped", "dotted", "upper", "empty"):
+    for k in ("bare", "escaped", "dotted", "upper", "empty", "word"):
         if not shape_tot.get(k):
             raise ToolError(f"vacuity: no emitted case with a part of shape '{k}'")
     if not any(c["src"] == "extra" for c in cases):
@@ -93,11 +99,24 @@ def run(ctx):
     # 2. replay
     inp = [{"k": c["k"], "p": [s(x) for x in c["p"]]} for c in cases]
     write_ndjson(ctx.path("cases.ndjson"), inp)
-    native = "T:2:3,T:3:2,C:2:3,S:2:2" if ctx.quick else "T:1:5,T:2:3,T:3:2,C:2:3,C:3:2,S:2:3"
+    native = "T:2:3,T:3:1,C:2:2,C:4:1,S:2:2" if ctx.quick else "T:1:5,T:2:3,T:3:2,C:2:3,C:3:2,S:2:3"
     summary, _ = run_harness(ctx, "vtext", ["c52", "--in", ctx.path("cases.ndjson"), "--out", ctx.path("out.ndjson"),
                                             "--native", native, "--alphabet", ALPHABET, "--with-empty",
                                             "--sql-every", 53 if ctx.quick else 7, "--keywords",
-                                            "--random", 20000 if ctx.quick else 400000], timeout=3000)
+                                            "--random", 12000 if ctx.quick else 400000], timeout=3000)
+    REQUIRED = ["TableReference::parse_str(to_quoted_string)", "TableReference::parse_str_normalized(ignore_case)",
+                "TableReference::parse_str_normalized(Display, ignore_case) [all parts words]", "TableReference::parse_str(Display) [all parts bare]",
+                "TableReference::resolve", "TableReference::from(ResolvedTableReference)", "resolved_eq", "table()/schema()/catalog()",
+                "Column::from_qualified_name(quoted_flat_name)", "Column::from_qualified_name_ignore_case(quoted_flat_name)",
+                "Column::from_qualified_name_ignore_case(flat_name) [all parts words]", "Column::from_qualified_name(flat_name) [all parts bare]",
+                "Column::new_unqualified(name).with_relation(rel)", "datafusion_expr::col(quoted_flat_name)",
+                "SQL DROP TABLE <text> -> DropTable.name", "SQL DROP SCHEMA <text> -> SchemaReference", "SQL expression <quoted_flat_name> -> Expr::Column",
+                "SQL (ident normalization off) DROP TABLE <Display> -> DropTable.name", "SQL (ident normalization off) expression <flat_name> -> Expr::Column"]
+    never = [p_ for p_ in REQUIRED if not summary["path_checks"].get(p_)]
+    if never:
+        raise ToolError(f"vacuity: paths never exercised: {never}")
+    if not (summary.get("random") or {}).get("identifiers_of_256_or_more_chars"):
+        raise ToolError("vacuity: no very long identifier was generated")
     out = read_ndjson(ctx.path("out.ndjson"))
     if len(out) != len(cases):
         raise ToolError("harness answered a different number of cases")
@@ -121,8 +140,7 @@ def run(ctx):
     for f in summary["failures"][:10]:
         report_violation(ctx, {"case": {"kind": f["kind"], "parts": f["parts"]}, "observed": f,
                                "oracle": "Parse(Render(ref)) = ref (QuoteIdent.tla RoundTrip): the text the engine rendered was parsed by the engine to a different reference"})
-    # SQL front end rejecting a rendered name: tolerated only for references with an empty part (known finding)
-    # and for reserved words (they are not promised to be usable unquoted in statements/expressions)
+    # SQL front end rejecting a rendered name: tolerated only for reserved words (they are not promised to be usable unquoted in statements/expressions)
     for r_ in summary["sql_rejected_unexplained"][:5]:
         report_violation(ctx, {"case": {"kind": "T", "parts": r_["parts"]}, "observed": r_,
                                "oracle": "the SQL front end must read a rendered name back (it raised an error / resolved to something that is not this object)"})
@@ -148,7 +166,7 @@ def run(ctx):
         "render_drift": {"differs_from_tla_render": drift, "differs_because_of_known_empty_identifier": drift_known, "samples": drift_samples},
         "rule": "a case is one reference (kind, parts); every reference over identifiers <= L chars of the 8-char alphabet (empty identifier included) is enumerated; distinct = distinct references",
     }, assumptions=[
-        "domain: every identifier including the empty one (stated in QuoteIdent.tla); the empty identifier in a multi-part name is the known finding C52-empty-identifier",
+        "domain: every identifier including the empty one (stated in QuoteIdent.tla); the empty-identifier defect (findings/C52-empty-identifier.md) is repaired in the tree and is checked strictly",
         "the harness is built with datafusion-common's `sql` feature (the sqlparser-based parse_identifiers); the feature-less fallback parser is not compiled into this build",
         "a rendered text that differs from the TLA+ Render but still parses back to the same reference is reported as render_drift, not as a violation",
         "SQL statements using reserved keywords as bare names may be rejected by the SQL parser; only a *different* resolved object is a violation there",
